@@ -131,8 +131,11 @@ class MessagePackDocument(HierDictDocument):
         return value
 
     def _ret_bool(self, _, value):
-        if value is None or value in (True, False):
-            return value
+        if value is None:
+            return None
+        if value in (True, False):
+            # 0, 1, 0.0 and 1.0 compare equal to booleans: hand a bool over
+            return bool(value)
         raise ValidationError(value)
 
     def get_class_name(self, cls):
